@@ -61,6 +61,7 @@ Mem32(w, Bases, Idxs, Scales, Disps) ==
 Valid32(m) == /\ m.x # 4                                    \* ESP cannot be an index
               /\ (m.x = -1 => m.sc = 1)
               /\ ~(m.b = -1 /\ m.x = -1 /\ m.hd = 0)
+              /\ ~(m.b = -1 /\ m.x # -1 /\ m.sc = 1)     \* textually the same as base-only
 Carriers(m8, m16, m32) ==
      {Ins("MOV", <<Rg(16, 1), m16>>), Ins("MOV", <<Rg(32, 2), m32>>), Ins("MOV", <<Rg(8, 3), m8>>),
       Ins("MOV", <<m16, Rg(16, 6)>>), Ins("MOV", <<m8, Rg(8, 5)>>), Ins("MOV", <<m32, Rg(32, 7)>>),
@@ -102,6 +103,10 @@ Universe ==
                         \cup {Ins(mn, <<Im(v, "d")>>) : mn \in {"RET", "RETF"}, v \in {0, 4, 8, 65535}}
                         \cup {Ins("LGDT", <<m>>) : m \in MemFew(0)}
     [] Part = "noop" -> {Ins(mn, << >>) : mn \in NoOps}
+    [] Part = "c18r" -> {Ins(mn, <<Rg(w, a), Im(v, "d")>>) : mn \in AluI, w \in W, a \in Regs, v \in (-130..-126) \cup (125..130) \cup {0, 1, -1}}
+                        \cup {Ins(mn, <<Rg(w, a), Im(v, "h")>>) : mn \in AluI, w \in {16, 32}, a \in {0, 3}, v \in {127, 128, 255}}
+                        \cup {Ins("MOV", <<Rg(w, a), Im(v, "d")>>) : w \in W, a \in Regs, v \in {0, 1, 127, 128, -1}}
+    [] Part = "c18m" -> UNION {{Ins(mn, <<m, Im(v, "d")>>) : m \in MemFew(w), v \in {-129, -128, 127, 128, 1}} : mn \in AluI, w \in W}
     [] Part = "mem16" -> CarriersOf(Mem16(0))
     [] Part = "mem32a" -> CarriersOf({m \in Mem32(0, {-1} \cup Regs, {-1}, {1}, Disp32) : Valid32(m)})
     [] Part = "mem32b" -> CarriersOf({m \in Mem32(0, {-1} \cup Regs, Regs \ {4}, {1, 2, 4, 8}, {0, 1, -1, 127, 128, -128, -129, 305419896}) : Valid32(m)})
